@@ -187,11 +187,33 @@ func WriteFail(prop, kind string, v any, msg string) {
 func Check(t TB, prop, kind string, v any, nontrivial bool, labels []string, run func() error) {
 	t.Helper()
 	Record(prop, kind, v, nontrivial, labels...)
+	done := Inflight(prop, kind, v)
 	err := Guard(run)
+	done()
 	if err != nil {
 		WriteFail(prop, kind, v, err.Error())
 		t.Fatalf("%s/%s: %v", prop, kind, err)
 	}
+}
+
+// Inflight journals the case about to run (only when the driver asks for it with
+// VERIF_INFLIGHT_DIR): if a goroutine of the tested library panics, the process
+// dies and the journal entry is what the driver turns into the replay file.
+// Tests that run the case before calling Check call it themselves.
+func Inflight(prop, kind string, v any) func() {
+	dir := os.Getenv("VERIF_INFLIGHT_DIR")
+	if dir == "" {
+		return func() {}
+	}
+	raw, err := json.Marshal(v)
+	if err != nil {
+		return func() {}
+	}
+	b, _ := json.MarshalIndent(ReplayFile{Property: prop, Kind: kind,
+		Message: "the process died while this case was running", Case: raw}, "", " ")
+	name := filepath.Join(dir, fmt.Sprintf("inflight-%s-%s-%d.json", prop, kind, os.Getpid()))
+	_ = os.WriteFile(name, b, 0o644)
+	return func() { _ = os.Remove(name) }
 }
 
 // Guard converts a panic of run into an error.
